@@ -8,22 +8,25 @@
     reordered, forged, wrong-chain, undecodable, panicking, partial, overlong, empty),
     over every clock reading per answer, every type-level verifier [tv], chunk size
     [per >= 1] and peer set. uint64 arithmetic is explicit ([two64], [wrap64]);
-    [h_height from < two64] and [to < two64] say that these are uint64 values. *)
+    [h_height from < two64] and [to < two64] say that these are uint64 values.
+    The header type's own Verify [tvp] may also PANIC ([TVPanics]): [GetRangeByHeight_p] is the
+    call with such a verifier (session.processResponses recovers, verifyChunkBoundaries does
+    not); [Verify_p ... = Some None] means "verified without error and without panic". *)
 From GH Require Import Base.Prelude Model.Verify Model.Session Proofs.SessionP.
 
 (** If the call returns headers they are exactly the heights from+1 .. to-1 in ascending
     order (no gap, no duplicate, [to - from - 1 >= 1] many); every one of them was sent by
     some peer, passed Validate and lies below [to]. *)
 Theorem C05_result_shape :
-  forall (drift : Z) (tv : hdr -> hdr -> tvres) (maxcap per : N) (from : hdr) (to : N)
+  forall (drift : Z) (tvp : hdr -> hdr -> tvres_p) (maxcap per : N) (from : hdr) (to : N)
          (peers : list N) (evs : list event) (res : list hdr),
   h_nil from = false -> h_height from < two64 -> to < two64 -> 1 <= per ->
-  GetRangeByHeight drift tv maxcap per from to peers evs = Some (ROk res) ->
+  GetRangeByHeight_p drift tvp maxcap per from to peers evs = Some (ROk res) ->
   h_height from + 1 < to /\
   res <> [] /\
   map h_height res = seqN (h_height from + 1) (N.to_nat (to - (h_height from + 1))) /\
   (forall h, In h res -> h_height h < to /\ h_ok h = true /\ In h (evs_hdrs evs)).
-Proof. exact result_heights. Qed.
+Proof. exact result_heights_p. Qed.
 
 (** "... and Verify starting from from": the returned slice is ONE Verify chain. Every
     returned header passed [Verify] (at the clock reading of one of the answers) against the
@@ -31,39 +34,64 @@ Proof. exact result_heights. Qed.
     inside an answer chunk by VerifyRange(from, chunk), across chunks by
     verifyChunkBoundaries. *)
 Theorem C05_result_verified :
-  forall (drift : Z) (tv : hdr -> hdr -> tvres) (maxcap per : N) (from : hdr) (to : N)
+  forall (drift : Z) (tvp : hdr -> hdr -> tvres_p) (maxcap per : N) (from : hdr) (to : N)
          (peers : list N) (evs : list event) (res : list hdr),
   h_nil from = false -> h_height from < two64 -> to < two64 -> 1 <= per ->
-  GetRangeByHeight drift tv maxcap per from to peers evs = Some (ROk res) ->
-  chain (verified_during drift tv evs) from res.
-Proof. exact result_verified. Qed.
+  GetRangeByHeight_p drift tvp maxcap per from to peers evs = Some (ROk res) ->
+  chain (verified_during_p drift tvp evs) from res.
+Proof. exact result_verified_p. Qed.
 
 (** Degenerate requests - every (from, to) with to <= from.Height()+1, including
     from.Height() = 2^64-1 for which every [to] is degenerate - return ErrRangeMixUp at once
     (whatever the events: before any of them; no hang, no panic). *)
 Theorem C05_degenerate_is_error :
-  forall drift tv maxcap per (from : hdr) (to : N) peers evs,
+  forall drift tvp maxcap per (from : hdr) (to : N) peers evs,
   h_height from < two64 -> to <= h_height from + 1 ->
-  GetRangeByHeight drift tv maxcap per from to peers evs = Some (RErr ERangeMixUp).
-Proof. exact degenerate_is_error. Qed.
+  GetRangeByHeight_p drift tvp maxcap per from to peers evs = Some (RErr ERangeMixUp).
+Proof. exact degenerate_is_error_p. Qed.
 
-(** No peer answer can crash the client: once the call has started, no sequence of
-    answers leads to a panic (the recovered decode panic, the unguarded h[0], the
-    prepareRequests(...)[0] of the re-request, chunks[i][0] and prev[len(prev)-1] of the
-    boundary check are all covered). The premise says the caller's own range fits in a
-    slice ([maxcap] = largest capacity [make] accepts); see [C05_range_beyond_slice_limit]. *)
-Theorem C05_no_response_can_crash :
-  forall drift tv maxcap per (from : hdr) (to : N) peers evs,
+(** No peer answer can crash the client. Full statement:
+      forall tvp ..., to - (from+1) <= maxcap -> GetRangeByHeight_p ... evs <> Some RPanic.
+    It holds for every header type whose own Verify never panics (the recovered decode panic,
+    the unguarded h[0], the prepareRequests(...)[0] of the re-request, chunks[i][0] and
+    prev[len(prev)-1] of the boundary check are all covered) ... *)
+Theorem C05_no_response_can_crash_partial :
+  forall drift tvp maxcap per (from : hdr) (to : N) peers evs,
+  (forall t u, tvp t u <> TVPanics) ->
   h_nil from = false -> h_height from < two64 -> to < two64 -> 1 <= per ->
   to - (h_height from + 1) <= maxcap ->
-  GetRangeByHeight drift tv maxcap per from to peers evs <> Some RPanic /\
-  GetRangeByHeight drift tv maxcap per from to peers evs <> Some RFuel.
-Proof. exact no_response_crashes. Qed.
+  GetRangeByHeight_p drift tvp maxcap per from to peers evs <> Some RPanic /\
+  GetRangeByHeight_p drift tvp maxcap per from to peers evs <> Some RFuel.
+Proof. exact no_response_crashes_p. Qed.
+
+(** ... and for a Verify that may panic every panic while an answer is processed is recovered
+    (the answer counts as failed); the ONLY crash left is a panic of Verify inside
+    verifyChunkBoundaries, which runs outside any recover: with that panic recovered the same
+    run ends with the chain error. *)
+Theorem C05_crash_only_in_boundary_check :
+  forall drift tvp maxcap per (from : hdr) (to : N) peers evs,
+  h_nil from = false -> h_height from < two64 -> to < two64 -> 1 <= per ->
+  to - (h_height from + 1) <= maxcap ->
+  GetRangeByHeight_p drift tvp maxcap per from to peers evs <> Some RFuel /\
+  (GetRangeByHeight_p drift tvp maxcap per from to peers evs = Some RPanic ->
+   GetRangeByHeight drift (recovered tvp) maxcap per from to peers evs = Some (RErr ENotChain)).
+Proof. exact crash_only_in_boundary_check. Qed.
+
+(** known finding 1: an answer that does crash the client. The second sub-request is answered
+    with a chunk whose first header makes the type-level Verify panic only when it is verified
+    against the header directly below it: VerifyRange(from, chunk) verifies it non-adjacently
+    (no panic, accepted), verifyChunkBoundaries verifies it adjacently (panic, not recovered). *)
+Theorem C05_no_response_can_crash_refuted :
+  exists drift tvp maxcap per (from : hdr) (to : N) peers evs,
+    h_nil from = false /\ h_height from < two64 /\ to < two64 /\ 1 <= per /\
+    to - (h_height from + 1) <= maxcap /\
+    GetRangeByHeight_p drift tvp maxcap per from to peers evs = Some RPanic.
+Proof. exact no_response_crashes_refuted. Qed.
 
 (** documented limit of the premise above (outside the property: the caller asks for a
     range longer than any slice; prepareRequests / make([]H, 0, amount) panic) *)
 Theorem C05_range_beyond_slice_limit :
-  forall drift tv maxcap per (from : hdr) (to : N) peers evs,
+  forall drift (tv : hdr -> hdr -> tvres) maxcap per (from : hdr) (to : N) peers evs,
   h_height from + 1 < two64 -> to < two64 -> 1 <= per ->
   h_height from + 1 < to -> maxcap < to - (h_height from + 1) ->
   GetRangeByHeight drift tv maxcap per from to peers evs = Some RPanic.
@@ -72,13 +100,13 @@ Proof. exact huge_range_panics. Qed.
 (** the only errors are: mixed-up range (at once, only for degenerate requests), context
     ended, exchange stopped, and the broken chain reported by the boundary check *)
 Theorem C05_errors_have_a_cause :
-  forall drift tv maxcap per (from : hdr) (to : N) peers evs e,
+  forall drift tvp maxcap per (from : hdr) (to : N) peers evs e,
   h_height from < two64 -> to < two64 -> 1 <= per ->
-  GetRangeByHeight drift tv maxcap per from to peers evs = Some (RErr e) ->
+  GetRangeByHeight_p drift tvp maxcap per from to peers evs = Some (RErr e) ->
   (e = ERangeMixUp /\ to <= h_height from + 1) \/
   (e = ECtx /\ In ECtxDone evs) \/ (e = EClosed /\ In EStop evs) \/
   (e = ENotChain /\ exists p now fs, In (ERespond p now fs) evs).
-Proof. exact errors_have_a_cause. Qed.
+Proof. exact errors_have_a_cause_p. Qed.
 
 (** non-vacuity: two chunks answered out of order by two peers *)
 Example C05_two_chunks :
@@ -112,6 +140,15 @@ Example C05_unlinked_chunk_is_refused :
   Verify 5%Z 0%Z ex_tv (ex_hdr 10) (ex_fork 14) = None.
 Proof. split; vm_compute; reflexivity. Qed.
 
+(** a panic of the type-level Verify inside an answer chunk is recovered: the answer fails, the
+    request is asked again (here: answered honestly by the other peer) *)
+Example C05_verify_panic_in_chunk_is_recovered :
+  GetRangeByHeight_p 0%Z ex_tvp 100 3 (ex_hdr 10) 14 [0; 1]
+    [EDispatch 0 (Req 11 3); ERespond 0 5%Z [FHdr (ex_hdr 11); FHdr (ex_panic_hdr 12); FHdr (ex_hdr 13)];
+     EDispatch 1 (Req 11 3); ERespond 1 5%Z [FHdr (ex_hdr 11); FHdr (ex_hdr 12); FHdr (ex_hdr 13)]]
+  = Some (ROk [ex_hdr 11; ex_hdr 12; ex_hdr 13]).
+Proof. vm_compute. reflexivity. Qed.
+
 (** from at the largest height: an error at once, also for to > 0 *)
 Example C05_from_at_max_height :
   GetRangeByHeight 0%Z ex_tv 100 3 (Hdr false 1 (two64 - 1) 0%Z 1 0 true) 5 [0; 1] [] = Some (RErr ERangeMixUp).
@@ -120,6 +157,8 @@ Proof. vm_compute. reflexivity. Qed.
 Print Assumptions C05_result_shape.
 Print Assumptions C05_result_verified.
 Print Assumptions C05_degenerate_is_error.
-Print Assumptions C05_no_response_can_crash.
+Print Assumptions C05_no_response_can_crash_partial.
+Print Assumptions C05_crash_only_in_boundary_check.
+Print Assumptions C05_no_response_can_crash_refuted.
 Print Assumptions C05_range_beyond_slice_limit.
 Print Assumptions C05_errors_have_a_cause.
